@@ -33,6 +33,8 @@ SchemaOps == {"check", "len", "example", "getast", "used"}
 DocsOnly == World = "docs"
 Ops == (IF DocsOnly THEN {} ELSE {[op |-> o, obj |-> s, arg |-> ""] : o \in SchemaOps, s \in Schemas})
   \cup (IF DocsOnly THEN {} ELSE {[op |-> "validate", obj |-> s, arg |-> d] : s \in Schemas, d \in FreshDocs})
+  \* s0: a text whose load fails half-way (a note between a key and a value that never comes): the loaders are pooled, nothing of it may show later
+  \cup (IF Shared \/ Shared2 \/ Shared3 \/ Shared4 \/ DocsOnly THEN {} ELSE {[op |-> "check", obj |-> "s0", arg |-> ""]})
   \cup {[op |-> o, obj |-> x, arg |-> ""] : o \in {"dcheck", "dlen", "dnext", "ddrain"}, x \in Docs}
   \cup {[op |-> "dvalidate", obj |-> "s1", arg |-> x] : x \in Docs}
   \cup (IF Shared \/ Shared2 \/ Shared3 \/ Shared4 \/ DocsOnly THEN {} ELSE {[op |-> o, obj |-> "e1", arg |-> ""] : o \in {"echeck", "evalues", "east", "elen"}})
